@@ -450,7 +450,9 @@ CheckVisit(i) ==
   IN IF p.res # "ok" THEN TRUE
      ELSE IF e.res # "ok" THEN Report(i, "visit-panic", e.res) /\ FALSE
      ELSE LET exp == Expected(p.tree)
-              okLog(l) == IF HasPromoted(p.tree) THEN SameBag(exp, CallsOf(l)) ELSE exp = CallsOf(l)
+              proms == PromPaths(p.tree, <<>>)
+              okLog(l) == IF proms = {} THEN exp = CallsOf(l)
+                          ELSE SameBag(exp, CallsOf(l)) /\ Outside(exp, proms) = Outside(CallsOf(l), proms)
           IN AllTrue({
                IF okLog(e.log) THEN TRUE ELSE Report(i, "visit-log", [which |-> "Visit", expected |-> exp]) /\ FALSE,
                IF okLog(e.logmut) THEN TRUE ELSE Report(i, "visit-log", [which |-> "VisitMut", expected |-> exp]) /\ FALSE,
@@ -501,6 +503,7 @@ CheckMacro(i) ==
   LET e == Ev[i]
       p == ParseDocument(e.text)
   IN IF p.res # "ok" THEN TRUE
+     ELSE IF e.macro_panic THEN Report(i, "macro-panic", "the expansion of toml!{...} panicked at run time") /\ FALSE
      ELSE AllTrue({
        IF SameV(p.tree, e.macro, FALSE) THEN TRUE ELSE Report(i, "macro-tree", [expected |-> Plain(p.tree)]) /\ FALSE,
        IF e.parsed_ok /\ SameV(p.tree, e.parsed, FALSE) THEN TRUE ELSE Report(i, "macro-parsed-tree", [ok |-> e.parsed_ok]) /\ FALSE})
@@ -542,6 +545,23 @@ EditSteps(i, steps, j, prev) ==
                           /\ EditSteps(i, steps, j + 1, st.text)
 CheckEdit(i) == EditSteps(i, Ev[i].steps, 1, Ev[i].start)
 
+\* ---- C18: feature configurations change performance or ordering only ----
+\* ORDER: preserve_order makes toml::Table iterate and print in insertion order; LIMIT: unbounded lifts the recursion limit
+HasPreserveOrder(cell) == cell \in {"preserve_order", "perf+preserve_order"}
+CheckDigest(i) ==
+  LET e == Ev[i]
+      same(S) == \A a, b \in S : e.cells[a].d = e.cells[b].d
+      all == 1..Len(e.cells)
+  IN CASE e.kind = "invariant" ->
+            IF same(all) THEN TRUE ELSE Report(i, "digest-differs", [item |-> e.item, kind |-> e.kind, cells |-> e.cells]) /\ FALSE
+       [] e.kind = "order" ->
+            IF same({a \in all : HasPreserveOrder(e.cells[a].cell)}) /\ same({a \in all : ~HasPreserveOrder(e.cells[a].cell)}) THEN TRUE
+            ELSE Report(i, "digest-differs", [item |-> e.item, kind |-> e.kind, cells |-> e.cells]) /\ FALSE
+       [] e.kind = "depth" ->
+            IF same({a \in all : e.cells[a].cell # "unbounded"}) THEN TRUE
+            ELSE Report(i, "digest-differs", [item |-> e.item, kind |-> e.kind, cells |-> e.cells]) /\ FALSE
+CheckCfgBuild(i) == IF Ev[i].ok THEN TRUE ELSE Report(i, "config-does-not-build", [cell |-> Ev[i].cell]) /\ FALSE
+
 U1Note(i) == Ev[i].ev = "parse" /\ ParseDocument(Ev[i].text).res = "u1" => PrintT(ToJson([u1 |-> i]))
 
 CheckEvent(i) ==
@@ -564,6 +584,8 @@ CheckEvent(i) ==
     [] Ev[i].ev = "build" -> CheckBuild(i)
     [] Ev[i].ev = "macro" -> CheckMacro(i)
     [] Ev[i].ev = "edit" -> CheckEdit(i)
+    [] Ev[i].ev = "digest" -> CheckDigest(i)
+    [] Ev[i].ev = "cfgbuild" -> CheckCfgBuild(i)
     [] OTHER -> Report(i, "unknown-event", Ev[i].ev) /\ FALSE
 
 Init == lvl = 0 /\ idx = 0
